@@ -8,7 +8,7 @@ def check(run):
     run.rules.append("leg M/R: (a) every token string of <= %d tokens over {n x - * = == not in ! ++ ? : ( )} explored lazily by TLC through the Pratt machine; "
                      "(b) sentence families: all 32x32 ordered pairs of built-in infix operators in 6 shapes (plain, negated, parenthesised), all triples over one "
                      "representative per level/associativity in 6 shapes (with `not` at each position), all chains of four operators over one operator per precedence level in 3 shapes "
-                     "(and of five over every second level in the thorough tier), 18 decorations (prefix, postfix, conditionals, calls, lists, maps, chains) over "
+                     "(and of five over every second level in the thorough tier), 20 decorations (prefix, postfix, conditionals, calls, lists, maps, chains) over "
                      "all representative pairs; the machine must agree with the stratified reference grammar, and every behaviour is replayed in the real parser; "
                      "non-trivial = accepted sentence with at least two operator tokens" % n)
     run.rules.append("leg T: random well-formed programs (up to ~200 tokens) parsed by the real parser, judged by TLC with RefParse on the token sequence the real tokenizer reported")
